@@ -327,6 +327,20 @@ Proof.
   - rewrite !stream_puts_null. reflexivity.
 Qed.
 
+(* whatever the declaration form of the named stream (by value or by reference, from the plain call or from a << chain):
+   one delivery, at the end of the scope, with ALL items — those of the initialising chain and those streamed later *)
+Theorem named_from_chain_same cfg th lg sv tag pre post :
+  exec_named_from_chain cfg th lg sv tag pre post = spec_stmt cfg th lg sv tag (pre ++ post).
+Proof.
+  unfold exec_named_from_chain, spec_stmt, enabled, stream_kind. rewrite sev_ge_gate.
+  destruct (gate_open (c_min cfg) sv); cbn [andb]; [|reflexivity].
+  rewrite construct_spec; unfold live. destruct (holds (th (lg_rec lg)) (lg_filter lg) sv).
+  - rewrite one_chain_live. rewrite app_nil_r, destroy_deads. rewrite stream_puts_live.
+    cbn [stream_destroy app]. rewrite destroy_live.
+    unfold delivered, message. rewrite msg_from_app, calls_of_app, map_app. cbn [app]. now rewrite app_assoc.
+  - rewrite one_chain_dead. rewrite app_nil_r, destroy_deads. rewrite stream_puts_dead. reflexivity.
+Qed.
+
 (* ---------------------------------------------------------------- programs: basic facts *)
 
 Lemma exec_prog_app cfg ops1 : forall w ops2,
